@@ -329,7 +329,9 @@ GroupOK(S) == \A i \in DOMAIN S.mId :
 GroupAssignmentCorrect == \A r \in Replicas : GroupOK(st[r])
 
 (* quiescence: nobody has anything left to fetch *)
-Quiescent == \A r \in Replicas : Avail(r) = <<>>
+HasAvail(r) == IF Up[r] = "src" THEN \E e \in Range(src) : e.ver > jn[r].lv
+               ELSE jn[r].lv < jn[Up[r]].cur /\ \E e \in Events(jn[Up[r]].j) : e.ver > jn[r].lv
+Quiescent == \A r \in Replicas : ~HasAvail(r)
 RECURSIVE ChainCompact(_)
 ChainCompact(r) == IsCompact[r] \/ (Up[r] # "src" /\ ChainCompact(Up[r]))
 Expected(r) == LET cc == ChainCompact(r)
